@@ -395,3 +395,27 @@ func sortedKeys[V any](m map[string]V) []string {
 	sort.Strings(ks)
 	return ks
 }
+
+// Recheck type-checks the (possibly re-ordered) syntax trees of l again.
+func Recheck(l *Loaded, pkgPath string, imp types.Importer) (*Loaded, []error) {
+	l2 := &Loaded{Fset: l.Fset, Files: l.Files, Paths: l.Paths, Info: newInfo()}
+	var errs []error
+	conf := types.Config{Importer: imp, Error: func(err error) { errs = append(errs, err) }}
+	pkg, _ := conf.Check(pkgPath, l.Fset, l.Files, l2.Info)
+	l2.Pkg = pkg
+	return l2, errs
+}
+
+// IsGenerated applies the real generated.Analyzer to one file.
+func IsGenerated(path string) bool {
+	fset := token.NewFileSet()
+	f, err := parser.ParseFile(fset, path, nil, parser.PackageClauseOnly)
+	if err != nil {
+		return false
+	}
+	m, err := generated.Analyzer.Run(&analysis.Pass{Fset: fset, Files: []*ast.File{f}})
+	if err != nil {
+		return false
+	}
+	return len(m.(map[string]generated.Generator)) > 0
+}
